@@ -8,6 +8,8 @@ import (
 	"github.com/form3tech-oss/f1/v2/pkg/f1"
 	f1testing "github.com/form3tech-oss/f1/v2/pkg/f1/testing"
 	"math"
+	"os"
+	"path/filepath"
 	"sort"
 	"strconv"
 	"strings"
@@ -861,6 +863,22 @@ func TestC14CLI(t *testing.T) {
 			args = append(args, "--start-rate", "1/10ms", "--end-rate", "5/10ms", "--ramp-duration", "100ms")
 		case "gaussian":
 			args = append(args, "--volume", "5000", "--repeat", "1s", "--iteration-frequency", "10ms", "--peak", "100ms", "--standard-deviation", "100ms")
+		}
+		// the file argument of `run file` / `chart file`: something that is not a readable config -
+		// a directory, a path that does not exist, no argument at all, an empty file: rejected
+		if i%8 == 5 {
+			dir := t.TempDir()
+			empty := filepath.Join(dir, "empty.yaml")
+			_ = os.WriteFile(empty, nil, 0o600)
+			target := []string{dir, ".", filepath.Join(dir, "missing.yaml"), empty, ""}[(i/8)%5]
+			args = []string{[]string{"run", "chart"}[(i/40)%2], "file"}
+			if target != "" {
+				args = append(args, target)
+			}
+			if (i/8)%2 == 1 && args[0] == "run" {
+				args = append(args, "-v")
+			}
+			o.Count("cli", "file argument that is no config")
 		}
 		var setups, iters atomic.Int64
 		inst := f1.New()
